@@ -4,6 +4,19 @@ import sys
 from bardolph.lib.time_pattern import TimePattern
 from bardolph.parser.token import Token, TokenTypes
 
+# Token types the lexer assigns by classification, or that never come from
+# the source text. A word in a script can't be one of these.
+_NON_KEYWORDS = (
+    TokenTypes.COMPARE, TokenTypes.EOF, TokenTypes.ERROR,
+    TokenTypes.LITERAL_STRING, TokenTypes.MARK, TokenTypes.NAME,
+    TokenTypes.NULL, TokenTypes.NUMBER, TokenTypes.REGISTER,
+    TokenTypes.SYNTAX_ERROR, TokenTypes.TIME_PATTERN, TokenTypes.UNKNOWN)
+
+# Keywords are lower-case only.
+_KEYWORDS = {
+    token_type.name.lower(): token_type for token_type in TokenTypes
+    if token_type not in _NON_KEYWORDS}
+
 
 class Lex:
     _CMP_SPEC = r'==|<=|>=|!=|[<>]'
@@ -62,7 +75,7 @@ class Lex:
         return Lex._INT.match(text) is not None
 
     def _token_type(self, word):
-        token_type = TokenTypes.__members__.get(word.upper())
+        token_type = _KEYWORDS.get(word)
         if token_type is not None:
             return token_type
         if word in self._REG_LIST:
